@@ -374,6 +374,50 @@ def cue_runner(prop, cfg, tier, seed, wdir, mpv, cov, violations, broken, notes)
     return eval_runner(prop, cfg, tier, seed, wdir, mpv, cov, violations, broken, notes, cmd='cue', mode='cue')
 
 
+def race_runner(prop, cfg, tier, seed, wdir, mpv, cov, violations, broken, notes):
+    """C12: the harness built with -race; a detector report ends the process with exit status 66."""
+    ok, out, mpvr = build_harness(race=True, outdir=wdir)
+    if not ok:
+        broken.append({'what': 'harness does not build with -race against %s' % REPO, 'log': out[-1500:]})
+        return
+    d = os.path.join(wdir, 'run')
+    env = go_env()
+    env['GORACE'] = 'halt_on_error=1 exitcode=66'
+    t1 = time.time()
+    seeds = [seed] if tier == 'quick' else [seed, seed + 1000, seed + 2000]
+    total_calls = 0
+    hist = {}
+    samples = []
+    kinds = {}
+    for sd in seeds:
+        p = subprocess.run([mpvr, 'race', d, str(sd), tier], env=env, stdout=subprocess.PIPE, stderr=subprocess.PIPE, timeout=3000)
+        err = p.stderr.decode('utf8', 'replace')
+        if p.returncode == 66 or 'WARNING: DATA RACE' in err:
+            m = re.search(r'WARNING: DATA RACE.*?(?=\n==================|\Z)', err, re.S)
+            rep = (m.group(0) if m else err)[:3000]
+            locs = re.findall(r'\s+(\S+\.go:\d+)', rep)
+            key = 'race:' + ','.join(sorted(set(l.split('/')[-1] for l in locs if '/repo/' in l or 'mpath' in l))[:4])
+            violations.append({'kind': 'race', 'key': key, 'why': 'the Go race detector reported a data race while parse / evaluate / validate calls ran concurrently',
+                               'seed': sd, 'detector_report': rep, 'how': 'go build -race harness; mpv race <dir> %d %s with GORACE=halt_on_error=1' % (sd, tier)})
+            continue
+        if p.returncode != 0:
+            violations.append({'kind': 'crash', 'key': 'crash:race-run', 'why': 'the concurrent run ended with exit status %d' % p.returncode, 'seed': sd, 'stderr': err[-2000:]})
+            continue
+        rep = json.load(open(os.path.join(d, 'race-report.json')))
+        total_calls += rep['calls']
+        for k, v in rep['class_histogram'].items():
+            hist[k] = hist.get(k, 0) + v
+        kinds = rep['item_kinds']
+        for m in (rep.get('mismatches') or [])[:20]:
+            violations.append({'kind': 'relational', 'key': 'concurrent-result:' + m['Kind'], 'why': 'a call returned something else under concurrency than when run alone',
+                               'query': m['Q'], 'query_hex': m['Q'].encode().hex(), 'expected': m['Want'], 'got': m['Got'], 'seed': sd})
+        samples.append({'seed': sd, 'calls': rep['calls'], 'items': rep['items'], 'rounds': rep['rounds'], 'race_detector': rep['race_detector']})
+    cov['seconds_impl'] = round(time.time() - t1, 1)
+    cov.update(evaluations=total_calls, distinct_nontrivial=len(hist), distinct=len(hist), in_domain=total_calls,
+               rule='concurrent calls (parse / Do on a shared operation and shared data / CueValidate with repeated and distinct cache keys) issued by 2, 3, 4, 8, 16 and 32 goroutines with random yields, under the Go race detector (halt on first report); every result compared with the answer of the same call run alone; distinct = goroutine-count configurations exercised',
+               samples=samples, exhaustive=False, class_histogram=hist, outcome_histogram={}, extra={'item_kinds': kinds})
+
+
 def ana_runner(prop, cfg, tier, seed, wdir, mpv, cov, violations, broken, notes):
     return eval_runner(prop, cfg, tier, seed, wdir, mpv, cov, violations, broken, notes, cmd='ana', mode='ana')
 
